@@ -25,15 +25,21 @@ RULE = ("seeded inputs: arrays of 0..2000 (thorough: ..20000) events drawn as un
         "model), and the property's oracle directly: out == in[mask] bitwise, mask shape/dtype, "
         "count == min(request, eligible) (all eligible for 0), no invalid value when excluded or "
         "when enough valid ones exist, same result when repeated after disturbing the global "
-        "random state. Dataset level: get_downsampled_scatter(ret_mask=True) under random filters "
-        "and linear/log scales against the Lean model getScatter, which gets the UNSCALED columns, "
+        "random state. Dataset level: get_downsampled_scatter(ret_mask=True) over the product "
+        "(manual exclusions) x (the dataset's invalid-event filter config['filtering']['remove "
+        "invalid events'] off/on) x (explicit remove_invalid False/True) x (linear/log per axis) x "
+        "(columns as drawn / all positive / with zeros / with negative values / mixed: finite "
+        "non-positive values pass every invalid-event filter but have no logarithm) x (request 0, "
+        "around #scaled-valid, between #scaled-valid and #filtered, around #filtered, larger) "
+        "against the Lean model getScatter, which gets the UNSCALED columns, "
         "the filter and the observed logarithms and does scaling, validity on the scaled values, "
         "downsampling and mask composition itself (mask and returned values compared); "
         "ds.filter.all with 'limit events' against limitSel (manual exclusions, then the limit); "
         "request SEQUENCES on one dataset (identical requests repeated after every returned x / y / "
         "mask was overwritten in place, with and without active filters, ret_mask on/off, "
         "interleaved with filter changes - many to a different event set of the same size (manual "
-        "swap, shifted index range) - with 'limit events', and with changes of the FEATURE DATA "
+        "swap, shifted index range) - with 'limit events', with the invalid-event filter switched "
+        "on and off, and with changes of the FEATURE DATA "
         "that involve no filter update: a plotted temporary feature is set again (all values new, "
         "events become invalid, permutation, single entries), the configuration of a plotted "
         "ancillary feature (crosstalk-corrected fluorescence) changes): every result must equal the "
@@ -127,6 +133,28 @@ def inject_invalid(rng, v, p):
 KINDS = ["uniform", "clustered", "const", "dup", "intgrid", "dyadic"]
 
 
+SIGNS = ["asis", "asis", "positive", "some0", "someneg", "mixed"]
+
+
+def resign(rng, v, how):
+    """sign pattern of the finite entries of a column (nan/inf entries stay)"""
+    if how == "asis":
+        return list(v)
+    out = [abs(x) + 0.5 if math.isfinite(x) else x for x in v]
+    if how == "positive":
+        return out
+    p = rng.choice([0.05, 0.2, 0.6])
+    for i, x in enumerate(out):
+        if math.isfinite(x) and rng.random() < p:
+            if how == "some0":
+                out[i] = 0.0
+            elif how == "someneg":
+                out[i] = -x
+            else:
+                out[i] = rng.choice([0.0, -x])
+    return out
+
+
 def gen_size(rng, thorough):
     r = rng.random()
     if r < 0.5:
@@ -198,6 +226,8 @@ def gen_seq(rng, thorough):
     if rng.random() < 0.5:
         a = [abs(x) + 0.5 if math.isfinite(x) else x for x in a]
         b = [abs(x) + 0.5 if math.isfinite(x) else x for x in b]
+    elif rng.random() < 0.5:     # finite non-positive values among positive ones (no logarithm)
+        a, b = resign(rng, a, rng.choice(SIGNS[2:])), resign(rng, b, rng.choice(SIGNS[2:]))
     c = None
     if src["y"] == "anc":      # second stored column the ancillary feature is computed from
         c = inject_invalid(rng, gen_values(rng, n, rng.choice(KINDS)), rng.choice([0, 0.1, 0.3]))
@@ -215,6 +245,10 @@ def gen_seq(rng, thorough):
     quiet = rng.random() < 0.5          # start with a phase without any filter
     last = None
     after_change = False
+    inv_on = False
+    if not quiet and rng.random() < 0.35:    # the dataset's own invalid-event filter, from the start
+        inv_on = True
+        steps.append(["invalid", 1])
     for j in range(rng.randint(4, 14)):
         r = rng.random()
         if r < 0.5 or (quiet and j < 3) or (after_change and r < 0.85):
@@ -231,6 +265,12 @@ def gen_seq(rng, thorough):
             else:
                 sec, key, vals = rng.choice(ANC_CHANGES)
                 steps.append(["calc", sec, key, rng.choice(vals)])
+            after_change = True
+        elif r < 0.56:
+            # config["filtering"]["remove invalid events"] switched (a filter, not the
+            # `remove_invalid` argument of the requests, which stay explicit)
+            inv_on = not inv_on
+            steps.append(["invalid", int(inv_on)])
             after_change = True
         elif r < 0.66:
             inc = [i for i in range(n) if manual[i]]
@@ -258,6 +298,7 @@ def gen_seq(rng, thorough):
         else:
             steps.append(["reset"])          # min/max keys survive reset_filter (O3)
             manual = [True] * n
+            inv_on = False
     case = {"fn": "seq", "a": [tok(x) for x in a], "b": [tok(x) for x in b], "steps": steps}
     if src != {"x": "native", "y": "native"}:
         case["src"] = src
@@ -386,7 +427,7 @@ def run_big(case, rec=None):
 
 
 def gen_case(rng, thorough, fn=None):
-    fn = fn or rng.choice(["grid", "grid", "grid", "rand", "ds", "limit", "seq", "seq"])
+    fn = fn or rng.choice(["grid", "grid", "grid", "rand", "ds", "ds", "limit", "seq", "seq"])
     if fn == "seq":
         return gen_seq(rng, thorough)
     n = gen_size(rng, thorough)
@@ -409,14 +450,37 @@ def gen_case(rng, thorough, fn=None):
     # dataset level: a filter (manual exclusions) on top
     pm = rng.choice([0, 0.2, 0.6, 1.0]) if n else 0
     case["excl"] = [i for i in range(n) if rng.random() < pm]
+    # ... and, for half of the cases, the dataset's own invalid-event filter
+    # (config["filtering"]["remove invalid events"]), which is NOT the `remove_invalid` argument of
+    # the request: the filter decides which events are there, the argument decides whether events
+    # whose SCALED values are invalid may be returned
+    cfgri = rng.random() < 0.5
+    if cfgri:
+        case["cfgri"] = True
     if fn == "ds":
-        if rng.random() < 0.5:   # positive data so that log scale keeps something
-            a = [abs(x) + 0.5 if math.isfinite(x) else x for x in a]
-            case["a"] = [tok(x) for x in a]
-        case["xs"] = rng.choice(["linear", "linear", "log"])
-        case["ys"] = rng.choice(["linear", "linear", "log"])
-        nf = n - len(case["excl"])
-        case["k"] = pick_request(rng, nf, max(nf - int(pa * nf), 0))
+        # sign patterns of the two columns: all positive (log keeps everything finite), or with
+        # finite non-positive values (finite, so they pass every invalid-event filter, but have
+        # no logarithm: 0 -> -inf, negative -> nan)
+        sa, sb = rng.choice(SIGNS), rng.choice(SIGNS)
+        a, b = resign(rng, a, sa), resign(rng, b, sb)
+        case["a"], case["b"] = [tok(x) for x in a], [tok(x) for x in b]
+        case["xs"] = rng.choice(["linear", "log"])
+        case["ys"] = rng.choice(["linear", "log"])
+        case["ri"] = rng.random() < 0.5
+        # the request relative to the three counts that matter: filtered events, filtered events
+        # that are valid unscaled, filtered events that are valid after scaling
+        man = np.ones(n, dtype=bool)
+        man[case["excl"]] = False
+        an, bn = np.array(a, dtype=np.float64), np.array(b, dtype=np.float64)
+        fin = valid(an) & valid(bn)
+        filt = man & fin if cfgri else man
+        with np.errstate(all="ignore"):
+            sc = valid(apply_scale(an, case["xs"])) & valid(apply_scale(bn, case["ys"]))
+        nf, nu, vf = int(filt.sum()), int((filt & fin).sum()), int((filt & sc).sum())
+        case["k"] = rng.choice([0, 0, 1, vf // 2, max(vf - 1, 0), vf, vf + 1, (vf + nf) // 2,
+                                nu, max(nf - 1, 0), nf, nf + 1, 2 * nf + 1,
+                                rng.randint(0, 2 * nf + 2), rng.randint(1, max(vf - 1, 1)),
+                                rng.randint(1, max(vf // 4, 1)), rng.randint(vf, max(nf, vf))])
     else:
         nf = n - len(case["excl"])
         case["k"] = rng.choice([0, 1, max(nf // 2, 0), max(nf - 1, 0), nf, nf + 1, 2 * nf + 1])
@@ -541,6 +605,8 @@ def make_ds(case):
     ds = dclab.new_dataset({"area_um": a, "deform": b})
     for i in case["excl"]:
         ds.filter.manual[i] = False
+    if case.get("cfgri"):
+        ds.config["filtering"]["remove invalid events"] = True
     ds.apply_filter()
     return ds, a, b
 
@@ -740,6 +806,16 @@ def run_seq(case, rec=None):
         manual = np.ones(n, dtype=bool)
         rng_idx, limit = None, 0
         index = np.arange(1, n + 1)
+        # the dataset's invalid-event filter: which events it lets through is decided when the
+        # filter is updated (not when the data change), from every scalar feature of the dataset
+        flt = {"on": False, "inv": np.ones(n, dtype=bool)}
+
+        def snapshot_invalid():
+            inv = np.ones(n, dtype=bool)
+            if flt["on"]:
+                for f in ds.features_scalar:
+                    inv &= valid(np.asarray(ds[f], dtype=np.float64))
+            flt["inv"] = inv
 
         def current(ax):
             """the data the plotted column has NOW (for the ancillary feature: what a fresh
@@ -751,7 +827,7 @@ def run_seq(case, rec=None):
             return np.array(ds2[ANC_FEAT], dtype=np.float64)
 
         def expected_all():
-            pre = manual.copy()
+            pre = manual & flt["inv"]
             if rng_idx is not None:
                 pre &= (index >= rng_idx[0]) & (index <= rng_idx[1])
             q = int(pre.sum())
@@ -763,8 +839,11 @@ def run_seq(case, rec=None):
             return pre, pre
 
         def fresh_all():
+            if flt["on"] and src != {"x": "native", "y": "native"}:
+                return None      # (a fresh dataset has other features for the invalid-event filter)
             ds2 = dclab.new_dataset({"area_um": a.copy(), "deform": b.copy()})
             ds2.filter.manual[:] = manual
+            ds2.config["filtering"]["remove invalid events"] = flt["on"]
             if rng_idx is not None:
                 ds2.config["filtering"]["index min"] = rng_idx[0]
                 ds2.config["filtering"]["index max"] = rng_idx[1]
@@ -871,21 +950,26 @@ def run_seq(case, rec=None):
                 elif kind == "limit":
                     limit = int(st[1])
                     ds.config["filtering"]["limit events"] = limit
+                elif kind == "invalid":
+                    flt["on"] = bool(st[1])
+                    ds.config["filtering"]["remove invalid events"] = flt["on"]
                 elif kind == "reset":
                     ds.reset_filter()            # min/max keys survive (O3)
                     manual[:] = True
                     limit = 0
+                    flt["on"] = False
                 if rec is not None:
                     with rec:
                         ds.apply_filter()
                 else:
                     ds.apply_filter()
+                snapshot_invalid()
                 got_all = np.array(ds.filter.all, dtype=bool)
                 exp_all, pre = expected_all()
                 trace.append(bits(got_all))
-                qual = np.ones(n, dtype=bool)
+                qual = flt["inv"].copy()
                 if rng_idx is not None:
-                    qual = (index >= rng_idx[0]) & (index <= rng_idx[1])
+                    qual &= (index >= rng_idx[0]) & (index <= rng_idx[1])
                 msteps.append(([f"limit {limit} {bits(qual) or '-'} {bits(manual) or '-'}"],
                                ("ok " + (bits(got_all) or "-")), f"step {si} {st[:3]} filter.all"))
                 if not np.array_equal(got_all, exp_all):
@@ -895,7 +979,7 @@ def run_seq(case, rec=None):
                     # keep the expectation of later steps tied to the settings, not to the failure
                 else:
                     fr = fresh_all()
-                    if not np.array_equal(got_all, fr):
+                    if fr is not None and not np.array_equal(got_all, fr):
                         fails.append(f"step {si} {st}: ds.filter.all differs from a fresh dataset with "
                                      f"the same settings")
             except Exception as e:  # noqa
@@ -910,7 +994,7 @@ def classify(case, aux=None):
         return None, True, True
     if case["fn"] == "seq":
         reqs = [tuple(s[1:5]) for s in case["steps"] if s[0] == "scatter"]
-        return None, len(reqs) != len(set(reqs)) or any(s[0] in ("limit", "data", "calc")
+        return None, len(reqs) != len(set(reqs)) or any(s[0] in ("limit", "data", "calc", "invalid")
                                                         for s in case["steps"]), True
     a = np.array([untok(t) for t in case["a"]], dtype=np.float64)
     k, ri = case["k"], case["ri"]
@@ -954,8 +1038,11 @@ def model_line(case, aux=None):
         lines, okay = scat_lines(aux["all"], a, b, case["xs"], case["ys"], k, ri, True)
         return lines if okay else None
     # limit: `limitSel` = manual exclusions first, then downsample_rand on the qualifying events
+    # (`qual` = everything below the limit except the manual array: nothing, or – with the
+    # dataset's invalid-event filter – the events that filter lets through, as observed)
     n = len(aux["all"])
-    return [f"limit {k} {bits(np.ones(n, dtype=bool)) or '-'} {bits(aux['manual']) or '-'}"]
+    qual = (aux["all"] | ~aux["manual"]) if case.get("cfgri") else np.ones(n, dtype=bool)
+    return [f"limit {k} {bits(qual) or '-'} {bits(aux['manual']) or '-'}"]
 
 
 def model_answer(case, line, aux=None):
@@ -1140,13 +1227,26 @@ def run(ctx):
     for c, (res, cls, thin, agree), slot in zip(cases, results, slots):
         ans_so, fails_so = res["so"]
         ctx.case((c["fn"], c["a"], c.get("b"), c.get("k"), c.get("ri"), c.get("excl"), c.get("xs"),
-                  c.get("ys"), c.get("steps"), c.get("seed"), c.get("twins")), nontrivial=bool(thin),
+                  c.get("ys"), c.get("steps"), c.get("seed"), c.get("twins"), c.get("cfgri")),
+                 nontrivial=bool(thin),
                  sample={"fn": c["fn"], "n": c.get("n", len(c["a"])), "k": c.get("k"),
                          "remove_invalid": c.get("ri"), "steps": (c.get("steps") or [])[:6],
                          "answer": ans_so[:60]} if thin else None)
         if c["fn"] == "seq":
             ctx.stat("seq_steps", len(c["steps"]))
+            if any(st[0] == "invalid" for st in c["steps"]):
+                ctx.stat("seq_with_invalid_event_filter")
         ctx.stat("fn=" + c["fn"])
+        if c["fn"] == "ds" and res["aux"] and "xs" in res["aux"]:
+            # which cell of (invalid-event filter) x (remove_invalid) x (log axis) x (request
+            # relative to #scaled-valid <= #filtered) the case is in
+            sel = res["aux"]["all"]
+            nf_ = int(sel.sum())
+            vf_ = int((sel & valid(res["aux"]["xs"]) & valid(res["aux"]["ys"])).sum())
+            rel = "0" if c["k"] == 0 else "le_valid" if c["k"] <= vf_ else \
+                "le_filtered" if c["k"] <= nf_ else "gt_filtered"
+            ctx.stat(f"ds filter_invalid={int(bool(c.get('cfgri')))} remove_invalid={int(c['ri'])} "
+                     f"lost_by_scaling={int(vf_ < nf_)} request={rel}")
         ctx.stat("events", c.get("n", len(c["a"])))
         ctx.stat("answer=" + ans_so.split(" ")[0])
         if cls:
